@@ -35,6 +35,10 @@ def _colour_box(cr):
     cr.bounded_check(run_contract_enum, "populate-wire-connections-box", c12.populate, pargs,
                      f"{len(pargs)} cases: edge sets of up to 3 edges over 3 entities x 2 signals, three colour maps, spanning tree on / off / failing: every edge is routed "
                      "exactly once under its own source, signal and planned colour; two-way pairs directly (contract evaluated on the real method, the two routers recorded)")
+    xargs = c12.expand_merges_arg_sets()
+    cr.bounded_check(run_contract_enum, "expand-merge-edges-box", c12.expand_merges, xargs,
+                     f"{len(xargs)} edge sets over flat / nested / repeated merges, resolved and unresolved members: one edge per leaf member from its physical producer, the merge remembered; "
+                     "edges into a junction vanish (contract evaluated on the real ConnectionPlanner._expand_merge_edges)")
     pcargs = c12.plan_connections_arg_sets()
     cr.bounded_check(run_contract_enum, "plan-connections-box", c12.plan_connections_c, pcargs,
                      f"{len(pcargs)} wire plans: circuit edges = graph edges minus internal feedback; colour = edge lock, else planned; earlier wires restored once each "
